@@ -36,7 +36,6 @@ import (
 	"path/filepath"
 	"regexp"
 	"runtime"
-	"runtime/pprof"
 	"sort"
 	"strings"
 	"sync"
@@ -749,12 +748,12 @@ func runCapCase(c capCase) *capResult {
 	switch {
 	case same && (missing > 0 || res.held < len(dd.Entries)):
 		res.viol("reload-drops-live-entries-"+c.Cfg.sizeClass(), "%s, %d entries offered (%s, path %s): the cache held %d live entries at dump time (dump: %d entries in %d blocks); %s that loaded this dump without reporting an error holds %d, %d live entries are gone (first: %s)%s", cfgTxt, c.N, c.Fill, c.Path, sizeA, len(dd.Entries), len(dd.BlockSizes), loadTxt, res.held, missing, firstMissing, loaderSaid)
-	case !same && len(ddB.Entries) < want:
+	case !same && res.held < want:
 		k := "reload-underfills-smaller-cache"
 		if want == len(dd.Entries) {
 			k = "reload-drops-live-entries-other-size"
 		}
-		res.viol(k, "%s, %d entries offered (%s, path %s): dump of %d live entries in %d blocks; %s that loaded it without reporting an error holds %d entries, but holds %d of the very same questions when they are stored through Exec%s", cfgTxt, c.N, c.Fill, c.Path, len(dd.Entries), len(dd.BlockSizes), loadTxt, len(ddB.Entries), want, loaderSaid)
+		res.viol(k, "%s, %d entries offered (%s, path %s): dump of %d live entries in %d blocks; %s that loaded it without reporting an error holds %d entries, but holds %d of the very same questions when they are stored through Exec%s", cfgTxt, c.N, c.Fill, c.Path, len(dd.Entries), len(dd.BlockSizes), loadTxt, res.held, want, loaderSaid)
 	}
 
 	// ---- every question, source and reloaded cache ----
@@ -1047,11 +1046,6 @@ func reportCapResult(r *capResult) {
 func runCapacityPhase() {
 	cases := capCases(rep.Seed, rep.Thorough())
 	t0 := time.Now()
-	if pf := os.Getenv("VERIF_C19_PROF"); pf != "" {
-		f, _ := os.Create(pf)
-		_ = pprof.StartCPUProfile(f)
-		defer pprof.StopCPUProfile()
-	}
 	runCapCases(cases)
 	rep.Extra("cap_phase_wall_ms", time.Since(t0).Milliseconds())
 	if rep.Violations() == 0 {
